@@ -858,7 +858,7 @@ def adapt_typehints(
                 raise_unexpected_value(f"Expected a tuple with {len(subtypehints)} elements", val)
             for n, v in enumerate(val):
                 subtypehint = subtypehints[0 if is_ellipsis or not is_tuple else n]
-                val[n] = adapt_typehints(v, subtypehint, **adapt_kwargs)
+                val[n] = adapt_typehints(v, subtypehint, **{**adapt_kwargs, "orig_val": None})
         if not serialize:
             val = tuple(val) if typehint_origin in {Tuple, tuple} else set(val)
 
@@ -895,6 +895,7 @@ def adapt_typehints(
                     adapt_kwargs_n = {**deepcopy(adapt_kwargs), "prev_val": prev_val[n]}
                 else:
                     adapt_kwargs_n = deepcopy(adapt_kwargs)
+                adapt_kwargs_n["orig_val"] = None
                 with change_to_path_dir(list_path):
                     val[n] = adapt_typehints(v, subtypehints[0], list_item=True, **adapt_kwargs_n)
 
@@ -931,6 +932,7 @@ def adapt_typehints(
                         kwargs["prev_val"] = kwargs["prev_val"].get(k)
                     else:
                         kwargs["prev_val"] = None
+                kwargs["orig_val"] = None
                 val[k] = adapt_typehints(v, subtypehints[1], **kwargs)
         if type(typehint) in typed_dict_meta_types:
             if hasattr(typehint, "__required_keys__"):
